@@ -50,6 +50,8 @@ enum PVal {
     /// the id of the k-th transaction AFTER the common part of the script (in S2 a commit of the
     /// hidden tail, in S1 one of the padding commits on a hidden element)
     TailTx(u64),
+    /// the Space sequence right after step i of the script (every step is one commit)
+    SeqOfStep(usize),
 }
 
 #[derive(Clone, Debug)]
@@ -75,6 +77,18 @@ struct Script {
     props: Vec<String>,
     assertions: Vec<String>,
     evidence: Vec<String>,
+    /// (index into hidden_vals, symbol) of the nickname attribute of VISIBLE persons
+    masked_nicks: Vec<(usize, String)>,
+    /// id the first element of the tail gets in the bigger instance (it exists there only)
+    first_tail_concept: String,
+    /// names of the visible persons
+    visible_names: Vec<String>,
+    /// (step index, kind) of the creation of hidden persons / evidence: right after that step the
+    /// element exists and is not yet classified
+    hidden_creations: Vec<(usize, &'static str)>,
+    /// a word of a visible person's name that a crowd of hidden tail elements repeats (they
+    /// outrank the visible match in a keyword search)
+    crowd_word: Option<String>,
 }
 
 struct World {
@@ -88,6 +102,8 @@ struct World {
     vary_facets: bool,
     /// Space sequence after the common part of the script
     base_seq: u64,
+    /// Space sequence before the first step of the script
+    start_seq: u64,
 }
 
 /// What S1 and S2 differ in. One kind of difference per configuration, so that an alarm names
@@ -122,6 +138,7 @@ impl World {
                     PVal::Id(s) => json!(self.id(s)),
                     PVal::Hidden(i) => script.hidden_vals[if self.vary_hidden { variant } else { 0 }][*i].clone(),
                     PVal::TailTx(k) => json!(format!("{DEFAULT_SPACE}#{}", self.base_seq + k)),
+                    PVal::SeqOfStep(i) => json!(self.start_seq + *i as u64 + 1),
                     PVal::MaskedAttr(i) => script.hidden_vals[if self.vary_attrs { variant } else { 0 }][*i].clone(),
                     PVal::MaskedFacet(i) => script.hidden_vals[if self.vary_facets { variant } else { 0 }][*i].clone(),
                 },
@@ -158,6 +175,9 @@ async fn run_steps(w: &mut World, script: &Script, steps: &[Step], variant: usiz
     Ok(())
 }
 
+/// Symbol of the always-present hidden element used for commit-count padding.
+const PAD: &str = "pad";
+
 const WORDS: [&str; 8] = ["alpha", "bravo", "carbon", "delta", "ember", "fjord", "gamma", "harbor"];
 const LABELS_VISIBLE: [&str; 3] = ["public", "", "internal"]; // "" = unlabeled (Space default)
 
@@ -173,6 +193,15 @@ fn gen_script(rng: &mut Rng, size: usize) -> Script {
     };
     let two_words = |rng: &mut Rng| format!("{} {}", rng.pick(&WORDS), rng.pick(&WORDS));
     let n_persons = 4 + rng.usize(size);
+    // a hidden element that exists in every instance: the smaller instance pads its commit count
+    // with updates of it (see `pad_to`), so that Space sequence numbers coincide in S1 and S2
+    s.steps.push(Step::Kml {
+        cmd: r#"CREATE CONCEPT ?c { TYPE "Person" NAME "padding element" SET ATTRIBUTES {rank: 0, nickname: "pad"} }"#.into(),
+        params: vec![],
+        binds: vec![("c".into(), PAD.into())],
+    });
+    s.steps.push(Step::Classify { sym: PAD.into(), label: "secret" });
+    s.hidden.insert(PAD.into());
     // persons
     for i in 0..n_persons {
         let sym = format!("person{i}");
@@ -186,10 +215,16 @@ fn gen_script(rng: &mut Rng, size: usize) -> Script {
             )
         } else {
             let as_attr = |v: PVal| if let PVal::Hidden(i) = v { PVal::MaskedAttr(i) } else { v };
+            let nick = as_attr(hid(&mut s, json!(format!("nick{}", rng.below(50))), json!(format!("nick{}", 50 + rng.below(50)))));
+            if let PVal::MaskedAttr(i) = &nick {
+                s.masked_nicks.push((*i, sym.clone()));
+            }
+            let visible_name = two_words(rng);
+            s.visible_names.push(visible_name.clone());
             (
-                PVal::Lit(json!(two_words(rng))),
+                PVal::Lit(json!(visible_name)),
                 as_attr(hid(&mut s, json!(rng.below(100)), json!(rng.below(100)))),
-                as_attr(hid(&mut s, json!(format!("nick{}", rng.below(50))), json!(format!("nick{}", rng.below(50))))),
+                nick,
                 match hid(&mut s, json!(rng.below(100) as f64 / 100.0), json!(rng.below(100) as f64 / 100.0)) {
                     PVal::Hidden(i) => PVal::MaskedFacet(i),
                     v => v,
@@ -202,6 +237,7 @@ fn gen_script(rng: &mut Rng, size: usize) -> Script {
             binds: vec![("c".into(), sym.clone())],
         });
         if hidden {
+            s.hidden_creations.push((s.steps.len() - 1, "concept"));
             s.steps.push(Step::Classify { sym: sym.clone(), label: "secret" });
             s.hidden.insert(sym.clone());
         } else {
@@ -229,6 +265,7 @@ fn gen_script(rng: &mut Rng, size: usize) -> Script {
             binds: vec![("e".into(), sym.clone())],
         });
         if hidden {
+            s.hidden_creations.push((s.steps.len() - 1, "evidence"));
             s.steps.push(Step::Classify { sym: sym.clone(), label: "secret" });
             s.hidden.insert(sym.clone());
         } else {
@@ -314,7 +351,9 @@ fn gen_script(rng: &mut Rng, size: usize) -> Script {
     }
     // the tail: additional hidden elements with propositions and assertions among themselves
     // and towards visible elements; each is classified right after its creation
+    s.first_tail_concept = format!("C-{}", n_persons + 2); // persons + the padding element
     let n_tail = 1 + rng.usize(4);
+    let crowd = rng.chance(1, 3);
     for i in 0..n_tail {
         let sym = format!("tail_person{i}");
         s.tail.push(Step::Kml {
@@ -351,6 +390,21 @@ fn gen_script(rng: &mut Rng, size: usize) -> Script {
                 binds: vec![],
             }),
             _ => {}
+        }
+    }
+    if crowd {
+        // a crowd of hidden elements that match a visible person's name better than it does
+        if let Some(word) = s.visible_names.first().and_then(|n| n.split(' ').next()).map(str::to_string) {
+            for j in 0..6 {
+                let sym = format!("tail_crowd{j}");
+                s.tail.push(Step::Kml {
+                    cmd: r#"CREATE CONCEPT ?c { TYPE "Person" NAME :name SET ATTRIBUTES {nickname: "tail"} }"#.into(),
+                    params: vec![("name".into(), PVal::Lit(json!(format!("{word} {word}"))))],
+                    binds: vec![("c".into(), sym.clone())],
+                });
+                s.tail.push(Step::Classify { sym, label: "secret" });
+            }
+            s.crowd_word = Some(word);
         }
     }
     s
@@ -616,19 +670,65 @@ fn session(nx: &CognitiveNexus, who: &str) -> Session {
     nx.session(AuthContext::principal(who))
 }
 
+/// Whether every authority of p under `cfg` masks `field` (the narrow second grant only ever
+/// shows `name`, so it masks whatever the first one masks).
+fn masks(cfg: &GovCfg, field: &str) -> bool {
+    !cfg.fields.is_empty() && !cfg.fields.iter().any(|f| f == field)
+}
+
+async fn space_seq(nx: &CognitiveNexus) -> Result<u64, String> {
+    Ok(nx.store.get_space(DEFAULT_SPACE).await.map_err(gerr("get_space"))?.seq)
+}
+
 /// Builds one instance: governance first (so that ids of governance rows coincide), then the
-/// population; `variant` selects the hidden contents, `tail` appends the extra hidden elements.
-async fn build(name: &str, script: &Script, cfg: &GovCfg, variant: usize, tail: bool) -> Result<(World, Installed, Vec<PolicyStatement>), String> {
+/// population. `variant` selects the column of the values that differ; `mode` says which values
+/// those are; `tail` appends the extra hidden elements (mode HiddenElements only).
+async fn build(name: &str, script: &Script, cfg: &GovCfg, variant: usize, tail: bool, mode: Mode) -> Result<(World, Installed, Vec<PolicyStatement>), String> {
     let nx = fresh_nexus(name).await?;
     let (inst, policy) = configure(&nx, cfg).await?;
-    // a field mask that every authority of p carries hides attributes / facets of visible elements
-    let masked = |field: &str| !cfg.fields.is_empty() && !cfg.fields.iter().any(|f| f == field);
-    let mut w = World { nx, sym: BTreeMap::new(), vary_attrs: masked("attributes"), vary_facets: masked("facets") };
+    let masked_mode = mode == Mode::MaskedFields;
+    let mut w = World {
+        nx,
+        sym: BTreeMap::new(),
+        vary_hidden: !masked_mode,
+        vary_attrs: masked_mode && masks(cfg, "attributes"),
+        vary_facets: masked_mode && masks(cfg, "facets"),
+        base_seq: 0,
+        start_seq: 0,
+    };
+    w.start_seq = space_seq(&w.nx).await?;
     run_steps(&mut w, script, &script.steps, variant).await?;
-    if tail {
+    w.base_seq = space_seq(&w.nx).await?;
+    if w.base_seq != w.start_seq + script.steps.len() as u64 {
+        return Err(format!("the script's {} steps took {} commits", script.steps.len(), w.base_seq - w.start_seq));
+    }
+    if tail && !masked_mode {
         run_steps(&mut w, script, &script.tail, variant).await?;
     }
     Ok((w, inst, policy))
+}
+
+/// Pads the instance with commits that touch only a hidden element until its Space sequence is
+/// `target`. The number of commits a Space has seen is not an element: every receipt, snapshot
+/// and search answer discloses the sequence by design (Spec 5.4, 78), so S1 and S2 are built with
+/// the SAME number of commits and every sequence-valued field is then compared exactly.
+async fn pad_to(w: &World, target: u64) -> Result<u64, String> {
+    let owner = w.nx.system_session();
+    let mut n = 0;
+    loop {
+        let seq = space_seq(&w.nx).await?;
+        if seq == target {
+            return Ok(n);
+        }
+        if seq > target || n > 400 {
+            return Err(format!("padding cannot reach sequence {target} (at {seq} after {n} commits)"));
+        }
+        n += 1;
+        exec_ok(&owner, "UPDATE :t SET ATTRIBUTES {rank: :rank}", &json!({"t": w.id(PAD), "rank": n})).await?;
+        if space_seq(&w.nx).await? != seq + 1 {
+            return Err("a padding commit did not advance the Space sequence by one".into());
+        }
+    }
 }
 
 // ---------------------------------------------------------------------------------------------
@@ -726,6 +826,25 @@ fn battery(rng: &mut Rng, s: &Script) -> Vec<Q> {
     b.push(qp("search", "SEARCH CONCEPT :term LIMIT 1", vec![("term", lit(json!(word(rng))))]));
     b.push(qp("search", r#"SEARCH CONCEPT :term WITH TYPE "Person" MODE "keyword" LIMIT 3"#, vec![("term", lit(json!(format!("{} {}", word(rng), word(rng)))))]));
     b.push(q("search", r#"SEARCH CONCEPT "tail""#));
+    b.push(Q { paged: Some(1), ..qp("search", "SEARCH CONCEPT :term LIMIT :lim", vec![("term", lit(json!(word(rng))))]) });
+    // --- probes of a field that may be masked for p: the nickname a visible person has in S1
+    for (i, _) in s.masked_nicks.iter().take(2) {
+        let nick = s.hidden_vals[0][*i].clone();
+        b.push(qp("masked_probe", "SEARCH CONCEPT :term", vec![("term", lit(nick.clone()))]));
+        b.push(qp("masked_probe", r#"FIND(?c.id) WHERE { ?c CONCEPT {} FILTER(?c.attributes.nickname == :n) }"#, vec![("n", lit(nick.clone()))]));
+        b.push(qp("masked_probe", r#"FIND(COUNT(?c)) WHERE { ?c CONCEPT {} FILTER(STARTS_WITH(?c.attributes.nickname, :n)) }"#, vec![("n", lit(nick))]));
+    }
+    // --- the first element only the bigger instance has (hidden there)
+    let ghost = s.first_tail_concept.clone();
+    b.push(qp("tail_element", r#"FIND(?c) WHERE { ?c CONCEPT {id: :id} }"#, vec![("id", lit(json!(ghost)))]));
+    b.push(qp("tail_element", "HISTORY ELEMENT :id", vec![("id", lit(json!(ghost)))]));
+    b.push(qp("tail_element", r#"EXPORT CAPSULE ?c WHERE { ?c CONCEPT {id: :id} }"#, vec![("id", lit(json!(ghost)))]));
+    b.push(qp("tail_element", r#"FIND(?p.id) WHERE { ?p PROPOSITION (:s, ?pred, ?o) }"#, vec![("s", lit(json!({"id": ghost})))]));
+    // --- transactions after the common part: hidden-only commits in both instances
+    for k in 1..=3 {
+        b.push(qp("tail_tx", "DESCRIBE TRANSACTION :tx", vec![("tx", PVal::TailTx(k))]));
+    }
+    b.push(qp("tail_tx", r#"FIND(?c.id, ?c.name) WHERE { ?c CONCEPT {} } AS OF TX :tx"#, vec![("tx", PVal::TailTx(1))]));
     // --- HISTORY / CHANGES / SNAPSHOT
     b.push(q("history", "HISTORY SPACE"));
     b.push(Q { paged: Some(2), ..q("history", "HISTORY SPACE LIMIT :lim") });
@@ -740,13 +859,27 @@ fn battery(rng: &mut Rng, s: &Script) -> Vec<Q> {
     b.push(qp("changes", "CHANGES AFTER SEQ :s LIMIT 50", vec![("s", lit(json!(2 + rng.below(10))))]));
     b.push(q("as_of", r#"FIND(?c.id, ?c.attributes.rank) WHERE { ?c CONCEPT {} } AS OF SEQ 6"#));
     b.push(q("as_of", r#"FIND(COUNT(?c)) WHERE { ?c CONCEPT {} } AS OF SEQ 4"#));
+    // the coordinate at which a hidden element had just been written and not yet been classified
+    for (step, kind) in s.hidden_creations.iter().filter(|(_, k)| *k == "concept").take(2).chain(s.hidden_creations.iter().filter(|(_, k)| *k == "evidence").take(1)) {
+        let cmd = if *kind == "concept" {
+            r#"FIND(?c.id, ?c.name, ?c.attributes.rank) WHERE { ?c CONCEPT {} } AS OF SEQ :s"#
+        } else {
+            r#"FIND(?e.id, ?e.payload) WHERE { ?e EVIDENCE {} } AS OF SEQ :s"#
+        };
+        b.push(qp("as_of_before_classification", cmd, vec![("s", PVal::SeqOfStep(*step))]));
+    }
+    if let Some((step, _)) = s.hidden_creations.iter().find(|(_, k)| *k == "concept") {
+        b.push(qp("as_of_before_classification", r#"FIND(COUNT(?c), MAX(?c.attributes.rank)) WHERE { ?c CONCEPT {type: "Person"} } AS OF SEQ :s"#, vec![("s", PVal::SeqOfStep(*step))]));
+        b.push(qp("as_of_before_classification", r#"EXPORT CAPSULE ?c WHERE { ?c CONCEPT {} } AS OF SEQ :s"#, vec![("s", PVal::SeqOfStep(*step))]));
+    }
     b.push(q("sequence", "SNAPSHOT"));
     b.push(q("sequence", "DESCRIBE SPACE"));
     b.push(q("sequence", "DESCRIBE SNAPSHOT"));
     // --- EXPORT
     b.push(q("export", r#"EXPORT CAPSULE ?c WHERE { ?c CONCEPT {type: "Person"} }"#));
     b.push(q("export", r#"EXPORT CAPSULE ?a WHERE { ?a ASSERTION {} } WITH {closure: "referential", provenance_depth: 2}"#));
-    b.push(qp("export", "EXPORT CAPSULE :id", vec![("id", PVal::Id(any_person(rng)))]));
+    b.push(qp("export", r#"EXPORT CAPSULE ?c WHERE { ?c CONCEPT {id: :id} } WITH {closure: "referential"}"#, vec![("id", PVal::Id(any_person(rng)))]));
+    b.push(q("export", r#"EXPORT CAPSULE ?c WHERE { ?c CONCEPT {} } AS OF SEQ 6"#));
     // --- DESCRIBE / LIST
     for c in ["DESCRIBE PRIMER", r#"DESCRIBE PRIMER MODE "full""#, "DESCRIBE ACCESS", "DESCRIBE EXECUTION CONTEXT", "DESCRIBE SCHEMA ENVIRONMENT",
         "LIST TYPES", "LIST SPACES", "LIST SCHEMA PACKAGES", r#"DESCRIBE ACCESS WITH {operation: "read", kind: "concept"}"#] {
@@ -758,7 +891,7 @@ fn battery(rng: &mut Rng, s: &Script) -> Vec<Q> {
     for p in s.props.iter().take(2) {
         b.push(qp("belief", r#"FIND(?b) WHERE { ?b BELIEF (id: :p) }"#, vec![("p", PVal::Id(p.clone()))]));
     }
-    b.push(qp("belief", r#"FIND(?slot) WHERE { ?slot BELIEF SLOT (:s, "status") }"#, vec![("s", PVal::Ref(any_person(rng)))]));
+    b.push(qp("belief", r#"FIND(?slot) WHERE { ?slot BELIEF SLOT (:s, "status") }"#, vec![("s", PVal::Id(any_person(rng)))]));
     // --- PREVIEW computes an effect over real state
     b.push(qp("preview", "PREVIEW KML :cmd", vec![("cmd", lit(json!(r#"ARCHIVE ?c WHERE { ?c CONCEPT {type: "Person"} } LIMIT 50"#)))]));
     b
@@ -866,6 +999,35 @@ fn is_denied(v: &Value) -> bool {
         r => one(r),
     }
 }
+/// The error code of a failed answer (first page), or "harness_parse_error".
+fn error_code(v: &Value) -> String {
+    let r = match v {
+        Value::Array(a) => a.first().unwrap_or(&Value::Null),
+        r => r,
+    };
+    if r.get("harness_parse_error").is_some() {
+        return format!("harness_parse_error: {}", short(&r["harness_parse_error"], 60));
+    }
+    r["error"]["code"].as_str().or(r["results"][0]["error"]["code"].as_str()).unwrap_or("?").to_string()
+}
+
+/// The JSON path of a `first_diff` line without array indexes (a stable counter key).
+fn path_key(diff: &Option<String>) -> String {
+    let d = diff.clone().unwrap_or_default();
+    let path = d.split(": ").next().unwrap_or("");
+    let mut out = String::new();
+    let mut skip = false;
+    for c in path.chars() {
+        match c {
+            '[' => skip = true,
+            ']' => skip = false,
+            c if !skip => out.push(c),
+            _ => {}
+        }
+    }
+    out
+}
+
 fn succeeded(v: &Value) -> bool {
     match v {
         Value::Array(a) => a.first().map(|r| r["status"] == "succeeded").unwrap_or(false),
@@ -941,74 +1103,254 @@ fn report(st: &mut Stats, sig: String, mut detail: Value) {
 // ---------------------------------------------------------------------------------------------
 // monitor 1: two-run non-interference
 
+/// The hits of a SEARCH answer as (id, score), in answer order.
+fn hit_list(v: &Value) -> Vec<(String, f64)> {
+    v["results"][0]["result"]["hits"]
+        .as_array()
+        .map(|h| h.iter().map(|x| (x["id"].as_str().unwrap_or("?").to_string(), x["score"].as_f64().unwrap_or(f64::NAN))).collect())
+        .unwrap_or_default()
+}
+
+/// Whether a limited hit list is the beginning of the unlimited one (by score sequence and
+/// membership: ties may be broken either way).
+fn is_prefix(got: &[(String, f64)], full: &[(String, f64)]) -> bool {
+    got.len() <= full.len() && got.iter().zip(full).all(|(g, w)| g.1 == w.1) && got.iter().all(|g| full.iter().any(|f| f.0 == g.0))
+}
+
+/// Classifies a difference between p's SEARCH answers on S1 and S2 (mode HiddenElements).
+/// `full` = p's answers to the same search with `LIMIT 100` on S1 and S2 (only asked when the
+/// command carries a LIMIT).
+fn search_signature(a1: &Value, a2: &Value, full: Option<(&Value, &Value, usize)>) -> &'static str {
+    let ids = |v: &Value| hit_list(v).into_iter().map(|(id, _)| id).collect::<Vec<_>>();
+    if mask_keys(a1, &["score"]) == mask_keys(a2, &["score"]) {
+        // the same hits in the same order, every other byte equal: only relevance numbers differ
+        return "C19/ni/search_score_value_depends_on_hidden_documents";
+    }
+    // everything but the hit list must be equal for the two "ranking" signatures
+    let without_hits = |v: &Value| {
+        let mut v = v.clone();
+        if let Some(r) = v["results"][0]["result"].as_object_mut() {
+            r.remove("hits");
+        }
+        mask_keys(&v, &["next_cursor"])
+    };
+    if without_hits(a1) != without_hits(a2) {
+        return "C19/ni/hidden_elements/search";
+    }
+    if hit_ids(a1) == hit_ids(a2) && ids(a1).len() == hit_ids(a1).len() {
+        return "C19/ni/search_order_of_visible_hits_depends_on_hidden_documents";
+    }
+    if let Some((f1, f2, k)) = full {
+        // a top-k: different members are explained by the ranking when the unlimited answers
+        // hold the same visible hits and each limited answer is a prefix of its unlimited one
+        let whole = |a: &Value, f: &Value| hit_list(a).len() == k.min(hit_list(f).len()) && is_prefix(&hit_list(a), &hit_list(f));
+        if !whole(a1, f1) || !whole(a2, f2) {
+            return "C19/search_limit/visible_hits_dropped_behind_unreadable_ones";
+        }
+        if hit_ids(f1) == hit_ids(f2) && !hit_ids(f1).is_empty() {
+            return "C19/ni/search_order_of_visible_hits_depends_on_hidden_documents";
+        }
+    }
+    "C19/ni/hidden_elements/search"
+}
+
+/// "Not paged over": for one principal on one store, `SEARCH .. LIMIT k` is a prefix of
+/// `SEARCH .. LIMIT 100` (compared by score sequence and membership, so that ties may be broken
+/// either way). A limited search that loses visible hits because elements the caller may not
+/// read filled its candidate window shows here.
+async fn search_limit_checks(sess: &Session, st: &mut Stats, case: u64, cfg: &GovCfg, store: &str, terms: &[String]) {
+    for term in terms {
+        for kind in ["CONCEPT", "COGNITION"] {
+            let full = match exec(sess, &format!("SEARCH {kind} :term LIMIT 100"), &json!({"term": term})).await {
+                Ok(r) => response_json(&r),
+                Err(_) => continue,
+            };
+            if !succeeded(&full) {
+                continue;
+            }
+            let full_hits = hit_list(&full);
+            for k in [1usize, 2, 3] {
+                let lim = match exec(sess, &format!("SEARCH {kind} :term LIMIT {k}"), &json!({"term": term})).await {
+                    Ok(r) => response_json(&r),
+                    Err(_) => continue,
+                };
+                let got = hit_list(&lim);
+                st.eval();
+                st.count("search_limit_checks");
+                if !full_hits.is_empty() {
+                    st.count("search_limit_checks_with_hits");
+                }
+                let want = &full_hits[..k.min(full_hits.len())];
+                let ok = succeeded(&lim) && got.len() == want.len() && is_prefix(&got, &full_hits);
+                if !ok {
+                    report(
+                        st,
+                        "C19/search_limit/visible_hits_dropped_behind_unreadable_ones".into(),
+                        json!({"case": case, "section": "ni", "store": store, "config": format!("{cfg:?}"), "query": format!("SEARCH {kind} {term:?} LIMIT {k}"),
+                            "limited": got, "first_k_of_LIMIT_100": want, "all_visible_hits": full_hits.len()}),
+                    );
+                }
+            }
+        }
+    }
+}
+
+/// The permission a battery command needs and p does not hold under `cfg`, if any.
+fn missing_permission(cfg: &GovCfg, cmd: &str) -> Option<&'static str> {
+    let holds = |a: &str| cfg.actions.iter().any(|x| x == a) || (cfg.second_grant && a == "search");
+    let needs: &[&'static str] = if cmd.starts_with("SEARCH") {
+        &["search"]
+    } else if cmd.starts_with("HISTORY") || cmd.starts_with("CHANGES") || cmd.starts_with("SNAPSHOT") || cmd.starts_with("DESCRIBE SNAPSHOT") || cmd.starts_with("DESCRIBE TRANSACTION") {
+        &["read_history"]
+    } else if cmd.starts_with("EXPORT") {
+        &["export"]
+    } else if cmd.starts_with("FIND") && cmd.contains(" AS OF ") {
+        &["read_history"]
+    } else if cmd.starts_with("FIND") && cmd.contains(" BELIEF ") {
+        &["project"]
+    } else {
+        &[]
+    };
+    needs.iter().find(|n| !holds(n)).copied()
+}
+
 fn ni_case(case: u64, rng: &mut Rng, st: &mut Stats, thorough: bool) {
     let script = gen_script(rng, if thorough { 8 } else { 5 });
-    let cfg = gen_cfg(rng);
+    let mut cfg = gen_cfg(rng);
+    // every third configuration carries a field mask that hides attributes and/or facets, and
+    // S1 / S2 then differ ONLY in those masked fields of visible elements
+    let mode = if case % 3 == 2 {
+        let keep: Vec<String> = cfg.fields.iter().filter(|f| *f != "attributes" && *f != "facets").cloned().collect();
+        cfg.fields = if keep.is_empty() { vec!["name".into()] } else { keep };
+        match rng.below(3) {
+            0 => cfg.fields.push("attributes".into()), // facets masked
+            1 => cfg.fields.push("facets".into()),     // attributes masked
+            _ => {}                                    // both masked
+        }
+        Mode::MaskedFields
+    } else {
+        Mode::HiddenElements
+    };
     let bat = battery(rng, &script);
+    let mut search_terms: Vec<String> = (0..2).map(|_| rng.pick(&WORDS).to_string()).collect();
+    if let Some(w) = &script.crowd_word {
+        search_terms.push(w.clone());
+    }
     let res: Result<(), String> = vcore::run::block_on(async {
-        let (w1, _, _) = build(&format!("c19_{case}"), &script, &cfg, 0, false).await?;
-        let (w2, _, _) = build(&format!("c19_{case}"), &script, &cfg, 1, true).await?;
+        let (w1, _, _) = build(&format!("c19_{case}"), &script, &cfg, 0, false, mode).await?;
+        let (w2, _, _) = build(&format!("c19_{case}"), &script, &cfg, 1, true, mode).await?;
+        // the same number of commits in both
+        let target = space_seq(&w2.nx).await?;
+        let padded = pad_to(&w1, target).await?;
+        st.add("ni_padding_commits", padded);
+        if w1.base_seq != w2.base_seq {
+            return Err(format!("common part ended at different sequences: {} | {}", w1.base_seq, w2.base_seq));
+        }
         let mut w1b: Option<World> = None;
         let (p1, p2) = (session(&w1.nx, P), session(&w2.nx, P));
         let (o1, o2) = (w1.nx.system_session(), w2.nx.system_session());
         st.count("configurations");
+        st.count(&format!("configurations_{}", mode.tag()));
         st.count(&format!("config_path_{}", cfg.path));
         let mut nontrivial = false;
         let mut allowed_some = false;
-        let purged_hidden = script.tail.iter().any(|t| matches!(t, Step::Kml { cmd, .. } if cmd.starts_with("PURGE")));
         for q in &bat {
             let a1 = mask(&observe(&p1, &w1, &script, 0, q).await);
             let a2 = mask(&observe(&p2, &w2, &script, 1, q).await);
             st.eval();
             st.count(&format!("ni_pairs_{}", q.family));
+            st.count(&format!("ni_pairs_mode_{}", mode.tag()));
             if is_denied(&a1) {
                 st.count("p_answers_denied");
             } else if succeeded(&a1) {
                 st.count("p_answers_allowed");
+                st.count(&format!("p_answers_allowed_{}", q.family));
                 allowed_some = true;
             } else {
                 st.count("p_answers_other_error");
+                let code = error_code(&a1);
+                if code.starts_with("harness_parse_error") {
+                    // a battery entry the parser refuses observes nothing: a harness fault
+                    st.inconclusive(format!("battery entry does not parse: {} ({code})", q.cmd));
+                }
+                st.count(&format!("p_answers_other_error[{code}][{}]", q.cmd.chars().take(48).collect::<String>()));
+            }
+            // the command gate: a family whose permission p does not hold is refused (Spec 29:
+            // search, read_history, export and project are permissions of their own)
+            if let Some(missing) = missing_permission(&cfg, &q.cmd) {
+                st.count("gate_checks_permission_not_held");
+                st.count(&format!("gate_checks_permission_not_held_{missing}"));
+                for (store, ans) in [("S1", &a1), ("S2", &a2)] {
+                    if !is_denied(ans) {
+                        report(
+                            st,
+                            format!("C19/gate/{missing}/answered_without_the_permission"),
+                            json!({"case": case, "store": store, "config": format!("{cfg:?}"), "query": q.cmd, "params": w1.params(&script, 0, &q.params), "answer": short(ans, 1200)}),
+                        );
+                    }
+                }
             }
             if a1 != a2 {
                 // is it noise? build S1 once more and look at the same query
                 if w1b.is_none() {
-                    w1b = Some(build(&format!("c19_{case}"), &script, &cfg, 0, false).await?.0);
+                    let wb = build(&format!("c19_{case}"), &script, &cfg, 0, false, mode).await?.0;
+                    pad_to(&wb, target).await?;
+                    w1b = Some(wb);
                 }
                 let wb = w1b.as_ref().unwrap();
                 let a1b = mask(&observe(&session(&wb.nx, P), wb, &script, 0, q).await);
                 if a1b != a1 {
                     st.count("unmasked_noise_entries_skipped");
+                    st.count(&format!("unmasked_noise_entries_skipped[{}]", path_key(&first_diff(&a1, &a1b, "$"))));
                     st.sample(|| json!({"monitor": "ni", "unmasked_noise": first_diff(&a1, &a1b, "$"), "query": q.cmd}));
                     continue;
                 }
-                let sig = if cfg.path == "policy_ceiling" {
-                    // one root cause for every family: the ceiling of a policy allow statement
-                    "C19/ni/policy_allow_max_classification_not_enforced".to_string()
-                } else if purged_hidden && matches!(q.family, "history" | "changes") {
-                    // S2 purged a hidden element: the stub lost its classification with the rest
-                    // of its governance block, and the journal now names it to p
-                    "C19/ni/purge_declassifies_the_stub_history_names_it".to_string()
-                } else if mask_keys(&a1, &SEQ_KEYS) == mask_keys(&a2, &SEQ_KEYS) {
-                    // the only difference is a Space-level sequence number / coordinate
-                    "C19/ni/space_sequence_reveals_hidden_commits".to_string()
-                } else if q.family == "search" && (hit_ids(&a1) == hit_ids(&a2) || q.cmd.contains("LIMIT")) {
-                    // the same visible hits with different relevance scores / in a different order
-                    // (or a different top-k): the ranking statistics include hidden documents
-                    "C19/ni/search_ranking_depends_on_hidden_documents".to_string()
-                } else {
-                    format!("C19/ni/{}", q.family)
+                let is_search = q.cmd.starts_with("SEARCH");
+                let sig = match mode {
+                    Mode::HiddenElements if is_search && q.paged.is_none() => {
+                        let full = if q.cmd.contains("LIMIT") {
+                            let cmd = format!("{} LIMIT 100", q.cmd.split(" LIMIT").next().unwrap_or(&q.cmd));
+                            let f1 = mask(&observe(&p1, &w1, &script, 0, &Q { cmd: cmd.clone(), ..q.clone() }).await);
+                            let f2 = mask(&observe(&p2, &w2, &script, 1, &Q { cmd, ..q.clone() }).await);
+                            let k = q.cmd.rsplit("LIMIT ").next().and_then(|n| n.trim().parse::<usize>().ok()).unwrap_or(usize::MAX);
+                            Some((f1, f2, k))
+                        } else {
+                            None
+                        };
+                        search_signature(&a1, &a2, full.as_ref().map(|(a, b, k)| (a, b, *k))).to_string()
+                    }
+                    Mode::HiddenElements if is_search => {
+                        // paged to exhaustion with LIMIT 1: the pages together are the ranking
+                        let flat = |v: &Value| v.as_array().map(|p| p.iter().flat_map(hit_list).map(|h| h.0).collect::<Vec<_>>()).unwrap_or_default();
+                        let (mut x, mut y) = (flat(&a1), flat(&a2));
+                        let same_order = x == y;
+                        x.sort();
+                        y.sort();
+                        if same_order && mask_keys(&a1, &["score"]) == mask_keys(&a2, &["score"]) {
+                            "C19/ni/search_score_value_depends_on_hidden_documents".to_string()
+                        } else if x == y && !same_order {
+                            "C19/ni/search_order_of_visible_hits_depends_on_hidden_documents".to_string()
+                        } else {
+                            "C19/ni/hidden_elements/search_paged".to_string()
+                        }
+                    }
+                    // hits that match only through a masked field, or whose score it moves
+                    Mode::MaskedFields if is_search => "C19/ni/search_matches_or_scores_on_masked_fields".to_string(),
+                    _ => format!("C19/ni/{}/{}", mode.tag(), q.family),
                 };
                 report(
                     st,
                     sig,
-                    json!({"case": case, "config": format!("{cfg:?}"), "query": q.cmd, "params_s1": w1.params(&script, 0, &q.params),
+                    json!({"case": case, "mode": mode.tag(), "config": format!("{cfg:?}"), "query": q.cmd, "params_s1": w1.params(&script, 0, &q.params), "params_s2": w2.params(&script, 1, &q.params),
                         "first_difference(S1|S2)": first_diff(&a1, &a2, "$"),
-                        "first_difference_ignoring_scores_and_sequences": first_diff(&mask_keys(&mask_keys(&a1, &SEQ_KEYS), &["score"]), &mask_keys(&mask_keys(&a2, &SEQ_KEYS), &["score"]), "$"),
+                        "first_difference_ignoring_scores": first_diff(&mask_keys(&a1, &["score"]), &mask_keys(&a2, &["score"]), "$"),
                         "hidden_ids": script.hidden.iter().map(|s| w1.id(s)).collect::<Vec<_>>(),
-                        "s2_only_tail": script.tail.iter().map(|t| match t {
+                        "space_seq(S1|S2)": [space_seq(&w1.nx).await.unwrap_or(0), space_seq(&w2.nx).await.unwrap_or(0)],
+                        "base_seq": w1.base_seq,
+                        "s2_only_tail": if mode == Mode::HiddenElements { script.tail.iter().map(|t| match t {
                             Step::Kml { cmd, params, .. } => format!("{cmd}  {}", w2.params(&script, 1, params)),
                             Step::Classify { sym, label } => format!("classify({}, {label})", w2.id(sym)),
-                        }).collect::<Vec<_>>(),
+                        }).collect::<Vec<_>>() } else { vec![] },
                         "p_on_s1": short(&a1, 1500), "p_on_s2": short(&a2, 1500)}),
                 );
             }
@@ -1018,17 +1360,31 @@ fn ni_case(case: u64, rng: &mut Rng, st: &mut Stats, thorough: bool) {
             if b1 != b2 {
                 nontrivial = true;
                 st.count(&format!("owner_sees_difference_{}", q.family));
+                if succeeded(&a1) {
+                    // the pairs that carry the weight: p is answered, the owner sees the difference
+                    st.count("ni_pairs_p_answered_and_owner_sees_difference");
+                    st.count(&format!("ni_decisive_pairs_{}", q.family));
+                    st.count(&format!("ni_decisive_pairs_mode_{}", mode.tag()));
+                }
             }
+        }
+        if mode == Mode::HiddenElements {
+            if script.crowd_word.is_some() {
+                st.count("configurations_with_a_hidden_crowd_outranking_a_visible_hit");
+            }
+            search_limit_checks(&p1, st, case, &cfg, "S1", &search_terms).await;
+            search_limit_checks(&p2, st, case, &cfg, "S2", &search_terms).await;
         }
         if nontrivial {
             st.count("nontrivial_configurations");
             if allowed_some {
-                st.distinct(vcore::hash_debug(&(format!("{cfg:?}"), script.steps.len(), script.hidden.len())));
+                st.distinct(vcore::hash_debug(&(format!("{cfg:?}"), mode.tag(), script.steps.len(), script.hidden.len())));
             }
         }
         if w1b.is_none() && case % 4 == 0 {
             // establish the mask on a share of the configurations even when nothing differed
-            let wb = build(&format!("c19_{case}"), &script, &cfg, 0, false).await?.0;
+            let wb = build(&format!("c19_{case}"), &script, &cfg, 0, false, mode).await?.0;
+            pad_to(&wb, target).await?;
             let sb = session(&wb.nx, P);
             let ob = wb.nx.system_session();
             for q in &bat {
@@ -1038,12 +1394,13 @@ fn ni_case(case: u64, rng: &mut Rng, st: &mut Stats, thorough: bool) {
                     st.count("mask_checks");
                     if x != y {
                         st.count("mask_checks_noise_left");
+                        st.count(&format!("mask_checks_noise_left[{}]", path_key(&first_diff(&x, &y, "$"))));
                         st.sample(|| json!({"monitor": "mask", "noise_left": first_diff(&x, &y, "$"), "query": q.cmd}));
                     }
                 }
             }
         }
-        st.sample(|| json!({"monitor": "ni", "case": case, "config": format!("{cfg:?}"), "steps": script.steps.len(), "tail_steps": script.tail.len(), "hidden": script.hidden.len(), "battery": bat.len()}));
+        st.sample(|| json!({"monitor": "ni", "case": case, "mode": mode.tag(), "config": format!("{cfg:?}"), "steps": script.steps.len(), "tail_steps": script.tail.len(), "hidden": script.hidden.len(), "battery": bat.len()}));
         Ok(())
     });
     if let Err(e) = res {
@@ -1065,7 +1422,9 @@ fn timeline_case(case: u64, rng: &mut Rng, st: &mut Stats) {
     let script = gen_script(rng, 4);
     let mut cfg = gen_cfg(rng);
     let bat = battery(rng, &script);
-    let event = *rng.pick(&["revoke", "revoke", "suspend", "revoke_principal", "deny", "expiry", "leave_group", "policy_withdrawn", "revoke_delegation"]);
+    // every kind of event in turn, so that each is exercised whatever the seed
+    const EVENTS: [&str; 8] = ["revoke", "suspend", "revoke_principal", "deny", "expiry", "leave_group", "policy_withdrawn", "revoke_delegation"];
+    let event = EVENTS[(case % EVENTS.len() as u64) as usize];
     // make the event applicable
     match event {
         "leave_group" => cfg.path = "group",
@@ -1082,7 +1441,7 @@ fn timeline_case(case: u64, rng: &mut Rng, st: &mut Stats) {
         let nx = fresh_nexus(&format!("c19_tl_{case}")).await?;
         let gov = nx.governance();
         let mut policy = vec![];
-        let mut w = World { nx: nx.clone(), sym: BTreeMap::new(), vary_attrs: false, vary_facets: false };
+        let mut w = World { nx: nx.clone(), sym: BTreeMap::new(), vary_hidden: false, vary_attrs: false, vary_facets: false, base_seq: 0, start_seq: 0 };
         run_steps(&mut w, &script, &script.steps, 0).await?;
         // p's authority; for "expiry" the root grant lapses a few milliseconds from now
         let inst = if event == "expiry" {
@@ -1187,6 +1546,21 @@ fn timeline_case(case: u64, rng: &mut Rng, st: &mut Stats) {
             if succeeded(&before[i]) && !succeeded(&a) {
                 st.count("timeline_allowed_before_denied_after");
             }
+            // "access is denied unless an active owner, grant, delegation or policy statement allows
+            // it": a principal that holds nothing is refused every read of the Space's content
+            let reads_content = ["FIND", "SEARCH", "HISTORY", "CHANGES", "EXPORT", "PREVIEW"].iter().any(|k| q.cmd.starts_with(k));
+            if !keeps_second && reads_content {
+                st.count("access_checks_principal_without_authority");
+                for (who, ans) in [("fresh", &b), ("p_after_the_event", &a)] {
+                    if !is_denied(ans) {
+                        report(
+                            st,
+                            format!("C19/access/{who}/answered_without_any_authority"),
+                            json!({"case": case, "event": event, "config": format!("{cfg:?}"), "query": q.cmd, "params": w.params(&script, 0, &q.params), "answer": short(ans, 1200)}),
+                        );
+                    }
+                }
+            }
             if a != b {
                 report(
                     st,
@@ -1257,12 +1631,12 @@ fn delegation_case(case: u64, rng: &mut Rng, st: &mut Stats) {
     let res: Result<(), String> = vcore::run::block_on(async {
         let nx = fresh_nexus(&format!("c19_dg_{case}")).await?;
         let gov = nx.governance();
-        let mut w = World { nx: nx.clone(), sym: BTreeMap::new(), vary_attrs: false, vary_facets: false };
+        let mut w = World { nx: nx.clone(), sym: BTreeMap::new(), vary_hidden: false, vary_attrs: false, vary_facets: false, base_seq: 0, start_seq: 0 };
         run_steps(&mut w, &script, &script.steps, 0).await?;
         let mut none = vec![];
         let inst = install(&nx, &cfg, P, "", &mut none).await?;
         let (delegate, delegator) = (session(&nx, P), session(&nx, LEAD));
-        let phases = ["initial", *rng.pick(&["narrowed_ceiling", "narrowed_kinds", "narrowed_actions", "delegator_suspended"]), "revoked"];
+        let phases = ["initial", ["narrowed_ceiling", "narrowed_kinds", "narrowed_actions", "delegator_suspended"][(case % 4) as usize], "revoked"];
         for phase in phases {
             match phase {
                 "initial" => {}
@@ -1341,6 +1715,7 @@ fn delegation_case(case: u64, rng: &mut Rng, st: &mut Stats) {
 // monitor 3: no self-escalation
 
 const WRITER: &str = "kip:principal:writer";
+const SCOPED_WRITER: &str = "kip:principal:scoped-writer";
 const SUSPENDED: &str = "kip:principal:suspended";
 
 type Dump = BTreeMap<String, BTreeMap<String, String>>;
@@ -1381,22 +1756,32 @@ async fn authority_dump(nx: &CognitiveNexus) -> Result<Dump, String> {
     );
     out.insert("space_governance_columns".into(), m);
     let mut blocks = BTreeMap::new();
+    let mut versions = BTreeMap::new();
     for kind in [anda_kip::ElementKind::Concept, anda_kip::ElementKind::Proposition, anda_kip::ElementKind::Assertion, anda_kip::ElementKind::Evidence, anda_kip::ElementKind::Activity] {
         for id in nx.store.elements(kind).ids() {
             let eid = ElementId::new(kind, id);
             if let Ok(el) = nx.store.get_element(eid).await {
                 blocks.insert(eid.to_string(), json!({"governance": el.governance(), "classification": el.classification()}).to_string());
+                versions.insert(eid.to_string(), short(&anda_cognitive_nexus::view::render(&el)["_system"], 400));
             }
         }
     }
     out.insert("element_governance_blocks".into(), blocks);
+    // not authority: the `_system` block (version, state, updated_tx) of every element, for the
+    // check that a writer whose authority stops below an element cannot change it
+    out.insert(ELEMENT_SYSTEM.into(), versions);
     Ok(out)
 }
+
+const ELEMENT_SYSTEM: &str = "element_system_blocks";
 
 /// What changed between two dumps that a session command must not change.
 fn forbidden_changes(before: &Dump, after: &Dump) -> Vec<String> {
     let mut out = vec![];
     for (coll, rows) in before {
+        if coll == ELEMENT_SYSTEM {
+            continue;
+        }
         let now = after.get(coll).cloned().unwrap_or_default();
         for (id, row) in rows {
             match now.get(id) {
@@ -1537,7 +1922,7 @@ fn escalation_case(case: u64, rng: &mut Rng, st: &mut Stats) {
     let cfg = gen_cfg(rng);
     let atts = attempts(rng, &script);
     let res: Result<(), String> = vcore::run::block_on(async {
-        let (w, _, _) = build(&format!("c19_esc_{case}"), &script, &cfg, 0, true).await?;
+        let (w, _, _) = build(&format!("c19_esc_{case}"), &script, &cfg, 0, true, Mode::HiddenElements).await?;
         let nx = &w.nx;
         let gov = nx.governance();
         // a writer holding every cognitive / maintenance / lifecycle permission, and nothing of
@@ -1549,15 +1934,32 @@ fn escalation_case(case: u64, rng: &mut Rng, st: &mut Stats) {
             .iter()
             .map(|s| s.to_string())
             .collect();
-        gov.create_grant(GrantDraft { space_id: DEFAULT_SPACE.into(), grantee_principal: WRITER.into(), actions: all, constraints: AuthorityConstraints { export: true, ..Default::default() }, ..Default::default() }, SYSTEM_PRINCIPAL)
+        gov.create_grant(GrantDraft { space_id: DEFAULT_SPACE.into(), grantee_principal: WRITER.into(), actions: all.clone(), constraints: AuthorityConstraints { export: true, ..Default::default() }, ..Default::default() }, SYSTEM_PRINCIPAL)
             .await
             .map_err(gerr("create_grant writer"))?;
+        // the same permissions, but the authority stops at `internal`: every mutation target is
+        // authorized individually, so nothing classified `secret` may change under this session
+        principal(nx, SCOPED_WRITER).await?;
+        gov.create_grant(
+            GrantDraft {
+                space_id: DEFAULT_SPACE.into(),
+                grantee_principal: SCOPED_WRITER.into(),
+                actions: all,
+                constraints: AuthorityConstraints { export: true, max_classification: "internal".into(), ..Default::default() },
+                ..Default::default()
+            },
+            SYSTEM_PRINCIPAL,
+        )
+        .await
+        .map_err(gerr("create_grant scoped writer"))?;
+        let secret_ids: BTreeSet<String> = script.hidden.iter().map(|s| w.id(s)).chain(w.sym.iter().filter(|(k, _)| k.starts_with("tail_")).map(|(_, v)| v.clone())).collect();
         principal(nx, SUSPENDED).await?;
         gov.create_grant(GrantDraft { space_id: DEFAULT_SPACE.into(), grantee_principal: SUSPENDED.into(), actions: vec!["read".into(), "update".into(), "create".into()], ..Default::default() }, SYSTEM_PRINCIPAL)
             .await
             .map_err(gerr("create_grant suspended"))?;
         gov.set_principal_status(SUSPENDED, status::SUSPENDED, SYSTEM_PRINCIPAL).await.map_err(gerr("suspend"))?;
         let sessions: Vec<(&str, Session)> = vec![
+            ("scoped_writer", session(nx, SCOPED_WRITER)),
             ("writer", session(nx, WRITER)),
             ("reader", session(nx, P)),
             ("stranger", session(nx, STRANGER)),
@@ -1578,6 +1980,35 @@ fn escalation_case(case: u64, rng: &mut Rng, st: &mut Stats) {
                 st.count(&format!("escalation_commands_{who}"));
                 st.count(&format!("escalation_{}_{outcome}", a.kind));
                 let after = authority_dump(nx).await?;
+                // reader holds read-type actions only; stranger / suspended / anonymous hold nothing
+                // (the suspended one has a grant it must not be able to use): none of them may
+                // get a mutation executed
+                let mutation = matches!(a.kind, "kml" | "kml_attack" | "ast_injected");
+                if *who == "scoped_writer" {
+                    st.count("access_checks_scoped_writer_commands");
+                    if outcome == "executed" && mutation {
+                        st.count("access_checks_scoped_writer_mutations_executed");
+                    }
+                    let touched: Vec<&String> = secret_ids.iter().filter(|id| before[ELEMENT_SYSTEM].get(*id) != after[ELEMENT_SYSTEM].get(*id)).collect();
+                    if !touched.is_empty() {
+                        report(
+                            st,
+                            "C19/access/scoped_writer/element_above_the_writers_ceiling_changed".into(),
+                            json!({"case": case, "command": a.text, "params": w.params(&script, 0, &a.params), "outcome": outcome, "changed_secret_elements": touched,
+                                "before": touched.iter().map(|id| before[ELEMENT_SYSTEM].get(*id)).collect::<Vec<_>>(), "after": touched.iter().map(|id| after[ELEMENT_SYSTEM].get(*id)).collect::<Vec<_>>()}),
+                        );
+                    }
+                }
+                if mutation && !matches!(*who, "writer" | "owner" | "scoped_writer") {
+                    st.count("access_checks_mutation_without_write_authority");
+                    if outcome == "executed" {
+                        report(
+                            st,
+                            format!("C19/access/{who}/mutation_executed_without_write_authority"),
+                            json!({"case": case, "session": who, "command": a.text, "ast_injected": a.ast.is_some(), "params": w.params(&script, 0, &a.params)}),
+                        );
+                    }
+                }
                 let bad = forbidden_changes(&before, &after);
                 if !bad.is_empty() {
                     let what = bad[0].split(':').next().unwrap_or("?").to_string();
@@ -1609,17 +2040,97 @@ fn main() {
     let t = run.tier;
     let thorough = t == vcore::Tier::Thorough;
     if run.wants("ni") {
-        run.parallel("ni", t.pick(48, 2000), 0.6, |c, rng, st| ni_case(c, rng, st, thorough));
+        run.parallel("ni", t.pick(48, 1700), 0.6, |c, rng, st| ni_case(c, rng, st, thorough));
     }
     if run.wants("timeline") {
-        run.parallel("timeline", t.pick(48, 1500), 0.4, |c, rng, st| timeline_case(c, rng, st));
+        run.parallel("timeline", t.pick(48, 1300), 0.4, |c, rng, st| timeline_case(c, rng, st));
     }
     if run.wants("escalation") {
-        run.parallel("escalation", t.pick(16, 400), 0.6, |c, rng, st| escalation_case(c, rng, st));
+        run.parallel("escalation", t.pick(14, 320), 0.6, |c, rng, st| escalation_case(c, rng, st));
     }
     if run.wants("delegation") {
-        run.parallel("delegation", t.pick(24, 800), 0.5, |c, rng, st| delegation_case(c, rng, st));
+        run.parallel("delegation", t.pick(24, 700), 0.5, |c, rng, st| delegation_case(c, rng, st));
     }
+    // --- evidence floors: every mechanism the property names was exercised
+    // thorough runs ~35x the configurations of quick; its floors are 20x quick's, which leaves room
+    // for cases skipped when the time budget runs out on a loaded machine
+    let f = |q: u64| t.pick(q, q * 20);
+    for (key, min) in [
+        // non-interference
+        ("configurations_hidden_elements", f(24)),
+        ("configurations_masked_fields", f(12)),
+        ("nontrivial_configurations", f(40)),
+        ("ni_pairs_p_answered_and_owner_sees_difference", f(800)),
+        ("ni_decisive_pairs_mode_masked_fields", f(80)),
+        ("ni_decisive_pairs_element", f(40)),
+        ("ni_decisive_pairs_tuple", f(40)),
+        ("ni_decisive_pairs_optional_not", f(40)),
+        ("ni_decisive_pairs_filter", f(40)),
+        ("ni_decisive_pairs_aggregate", f(40)),
+        ("ni_decisive_pairs_order_by", f(40)),
+        ("ni_decisive_pairs_paging", f(25)),
+        ("ni_decisive_pairs_search", f(40)),
+        ("ni_decisive_pairs_history", f(10)),
+        ("ni_decisive_pairs_changes", f(10)),
+        ("ni_decisive_pairs_export", f(10)),
+        ("ni_decisive_pairs_belief", f(10)),
+        ("ni_decisive_pairs_as_of_before_classification", f(10)),
+        ("ni_decisive_pairs_tail_tx", f(5)),
+        ("ni_decisive_pairs_tail_element", f(10)),
+        ("ni_decisive_pairs_masked_probe", f(20)),
+        ("config_path_grant", 1),
+        ("config_path_group", 1),
+        ("config_path_delegation", 1),
+        ("config_path_chain", 1),
+        ("config_path_policy_scope", 1),
+        ("config_path_policy_ceiling", 1),
+        ("search_limit_checks_with_hits", f(60)),
+        ("configurations_with_a_hidden_crowd_outranking_a_visible_hit", f(3)),
+        // authority timeline
+        ("timeline_event_revoke", f(4)),
+        ("timeline_event_suspend", f(4)),
+        ("timeline_event_revoke_principal", f(4)),
+        ("timeline_event_deny", f(4)),
+        ("timeline_event_expiry", f(4)),
+        ("timeline_event_leave_group", f(4)),
+        ("timeline_event_policy_withdrawn", f(4)),
+        ("timeline_event_revoke_delegation", f(4)),
+        ("timeline_next_request_checks", f(2000)),
+        ("timeline_allowed_before_denied_after", f(800)),
+        // delegation
+        ("delegation_phase_initial", f(16)),
+        ("delegation_phase_narrowed_ceiling", f(3)),
+        ("delegation_phase_narrowed_kinds", f(3)),
+        ("delegation_phase_narrowed_actions", f(3)),
+        ("delegation_phase_delegator_suspended", f(3)),
+        ("delegation_phase_revoked", f(16)),
+        ("delegation_delegator_denied", f(1000)),
+        ("delegation_delegate_allowed", f(500)),
+        ("delegation_subset_checks", f(150)),
+        // no self-escalation
+        ("escalation_commands_writer", f(1000)),
+        ("escalation_commands_reader", f(1000)),
+        ("escalation_commands_stranger", f(1000)),
+        ("escalation_commands_suspended", f(1000)),
+        ("escalation_commands_anonymous", f(1000)),
+        ("escalation_commands_owner", f(1000)),
+        ("escalation_kml_executed", f(200)),
+        ("escalation_kml_attack_executed", f(50)),
+        ("escalation_ast_injected_refused_at_parse", f(200)),
+        ("escalation_audit_rows_gained", f(1000)),
+        ("access_checks_principal_without_authority", f(1500)),
+        ("gate_checks_permission_not_held_search", f(5)),
+        ("gate_checks_permission_not_held_read_history", f(20)),
+        ("gate_checks_permission_not_held_export", f(10)),
+        ("gate_checks_permission_not_held_project", f(5)),
+        ("access_checks_mutation_without_write_authority", f(4000)),
+        ("access_checks_scoped_writer_commands", f(1000)),
+        ("access_checks_scoped_writer_mutations_executed", f(50)),
+    ] {
+        run.floor(key, min);
+    }
+    run.assume("the classification ladder public < internal < private < sensitive < secret and the Space default `internal` are the engine's documented defaults; hidden elements are classified `secret` through the host `classify` API, p's ceilings are at most `sensitive`");
+    run.assume("S1 and S2 see the same number of commits (S1 is padded with updates of an element hidden in both): the Space sequence is a Space-level coordinate that every receipt, SNAPSHOT and SEARCH answer discloses by design (Spec 5.4, 78), not an element");
     let mut pending = std::mem::take(&mut *PENDING.lock().unwrap());
     pending.sort_by(|a, b| a.0.cmp(&b.0));
     for (sig, detail) in pending {
